@@ -238,8 +238,8 @@ func runSource(cs SrcCase) ev.Outcome {
 	}
 	lay := walkMPCLC(buf.Bytes())
 	sig := func(s string) string {
-		if lay.BeyondFirstBlock {
-			return sigBeyondBlock
+		if lay.AcrossBuffer {
+			return sigAcrossBuffer
 		}
 		return "mpclc/roundtrip/" + s
 	}
